@@ -93,6 +93,8 @@ def f_e(e):
     if k == "ERangeStep": return "%s..%s:%s" % (f_e(e[1]), f_e(e[2]), f_e(e[3]))
     if k == "ECoalesce": return "(%s ?? %s)" % (f_e(e[1]), f_e(e[2]))
     if k == "ECatch": return "(%s catch %s)" % (f_e(e[1]), f_e(e[2]))
+    if k == "ECatchHB": return "(%s catch e9 { let q9 := %s; } 1)" % (f_e(e[1]), f_e(e[2]))   # the access inside the handler block
+    if k == "ECatchH": return "(%s catch e9 { } %s)" % (f_e(e[1]), f_e(e[2]))      # handler block AND fallback (same node in the model)
     if k == "EClosure": return "fn%s {\n%s}" % (f_sig(e[1], e[2]), f_s(e[3], 2))
     raise ValueError(e)
 
@@ -164,6 +166,7 @@ def c_e(e):
     if k == "EInit": return "(EInit %s %s %s)" % (q(e[1]), c_e(e[2]), c_e(e[3]))
     if k == "EClosure": return "(EClosure %s %s %s)" % (c_params(e[1]), c_ty(e[2]), c_s(e[3]))
     if k in ("EUn", "EStruct", "EArr"): return "(%s %s)" % (k, c_e(e[1]))
+    if k in ("ECatchH", "ECatchHB"): return "(ECatch %s %s)" % (c_e(e[1]), c_e(e[2]))
     if k in ("ECall", "ECons", "EBin", "EIndex", "ERange", "ECoalesce", "ECatch"):
         return "(%s %s %s)" % (k, c_e(e[1]), c_e(e[2]))
     if k == "ERangeStep": return "(ERangeStep %s %s %s)" % (c_e(e[1]), c_e(e[2]), c_e(e[3]))
@@ -274,6 +277,15 @@ def ctx_value():
     C["array_elem"] = lambda a: ([], [let("arr", None, ("EArr", elist([a, lit(1)])))])
     C["coalesce_rhs"] = lambda a: ([], [let("o", ("TOpt", I32), var("none")), let("v", None, ("ECoalesce", var("o"), a))])
     C["catch_fallback"] = lambda a: ([], [let("v", None, ("ECatch", call(var("mayfail")), a))])
+    # a catch with a handler block and a fallback value (seed C12f: the resolver skipped the fallback of this shape)
+    C["catch_handler_fallback"] = lambda a: ([], [let("v", None, ("ECatchH", call(var("mayfail")), a))])
+    C["catch_handler_fallback_stmt"] = lambda a: ([], [("SExpr", ("ECatchH", call(var("mayfail")), a))])
+    # ... and the same shapes where the collector used to create no scope for the handler (condition of if / while, iterated
+    # expression of for): found on the unmodified tree through the wrapper above, repaired in /repo (collector visits these)
+    C["catch_handler_in_if_cond"] = lambda a: ([], [("SIf", binop(">", ("ECatchH", call(var("mayfail")), a), lit(0)), ("SSkip",), ("SSkip",))])
+    C["catch_handler_body_in_if_cond"] = lambda a: ([], [("SIf", binop(">", ("ECatchHB", call(var("mayfail")), a), lit(0)), ("SSkip",), ("SSkip",))])
+    C["catch_handler_body_in_for_range"] = lambda a: ([], [("SFor", "i", ("ERange", lit(0), ("ECatchHB", call(var("mayfail")), a)), ("SSkip",))])
+    C["catch_handler_body"] = lambda a: ([], [let("v", None, ("ECatchHB", call(var("mayfail")), a))])
     C["nested_block"] = lambda a: ([], [("SBlock", seq(("SIf", binop("==", lit(1), lit(1)), seq(("SWhile", binop("<", lit(1), lit(0)), seq(let("v", None, a)))), ("SSkip",))))])
     return C
 
@@ -314,6 +326,7 @@ WRAPS = [
     lambda a: binop("+", lit(1), a), lambda a: binop("-", a, lit(1)), lambda a: ("EUn", a),
     lambda a: call(var("take"), a), lambda a: binop("*", a, lit(3)),
     lambda a: ("ECatch", call(var("mayfail")), a),
+    lambda a: ("ECatchH", call(var("mayfail")), a),
 ]
 
 class Case(object):
